@@ -679,7 +679,8 @@ fn dump(tcx: TyCtxt<'_>) -> J {
                     ("span", span_j(tcx, tcx.def_span(did))),
                 ];
                 // the initialiser of a plain `const` item, as MIR (a table moved from a function body into a const keeps its rows)
-                if matches!(tcx.def_kind(did), DefKind::Const { .. }) {
+                // (.. and of an associated `const` of an inherent impl that has a body: `impl T { const ALL: [T; 7] = [..]; }`)
+                if matches!(tcx.def_kind(did), DefKind::Const { .. } | DefKind::AssocConst { .. }) {
                     if let Some(ldid) = did.as_local() {
                         if tcx.hir_maybe_body_owned_by(ldid).is_some() {
                             let body = tcx.mir_for_ctfe(did);
